@@ -302,8 +302,11 @@ package wire
 // Opening (or resuming) an upstream registers, under its alias, an ack channel made for this very
 // registration - never one left over from an earlier stream that used the alias - its id and a
 // writer chosen by its QoS, and touches no other alias.
+// (C02 shares the registration clauses: a resumed stream whose broker-assigned alias is not
+//  registered - e.g. skipped because a refused attempt left the stream id in the table - never gets
+//  its ack channel, and its unacknowledged chunks are never retransmitted)
 //@ func (*ClientConn).openUpstream
-//@   props C07
+//@   props C07 C02
 //@   requires[unchecked] c.upstreams != nil && c.upstreams.mu != nil && c.upstreams.acks != nil && c.upstreams.aliases != nil && c.upstreams.messageWriters != nil
 //@   requires[unchecked] qoS == message.QoSReliable || qoS == message.QoSPartial || qoS == message.QoSUnreliable
 //@   ensures has(c.upstreams.acks, streamIDAlias) && fresh(c.upstreams.acks[streamIDAlias]) && cap(c.upstreams.acks[streamIDAlias]) >= 1
